@@ -206,10 +206,11 @@ Section Contract.
     licensed : bool;      (* a poll_ready -> Ready(Ok) not yet consumed by a start_send *)
     closed : bool;        (* poll_close has been called *)
     failed : bool;        (* poll_ready / poll_flush / poll_close answered Err *)
+    rfailed : bool;       (* poll_next answered Err *)
     dirty : bool;         (* an item was written since the last poll_flush -> Ready(Ok) *)
     last_flush_pending : bool;  (* the last poll_flush call of the current poll answered Pending *)
     streak : nat }.       (* consecutive poll_ready/poll_flush calls without progress *)
-  Definition cst0 := {| licensed := false; closed := false; failed := false; dirty := false;
+  Definition cst0 := {| licensed := false; closed := false; failed := false; rfailed := false; dirty := false;
                         last_flush_pending := false; streak := 0 |}.
 
   (* at most this many readiness/flush polls between two progress events (a write, or a read
@@ -221,27 +222,29 @@ Section Contract.
     | CReady r =>
       (S (streak s) <=? max_streak,
        {| licensed := match r with TOk => true | _ => false end; closed := closed s;
-          failed := match r with TErr => true | _ => failed s end; dirty := dirty s;
+          failed := match r with TErr => true | _ => failed s end; rfailed := rfailed s; dirty := dirty s;
           last_flush_pending := last_flush_pending s; streak := S (streak s) |})
     | CSend _ _ =>
       (licensed s && negb (closed s) && negb (failed s),
-       {| licensed := false; closed := closed s; failed := failed s; dirty := true;
+       {| licensed := false; closed := closed s; failed := failed s; rfailed := rfailed s; dirty := true;
           last_flush_pending := false; streak := 0 |})
     | CFlush r =>
       (S (streak s) <=? max_streak,
        {| licensed := licensed s; closed := closed s;
-          failed := match r with TErr => true | _ => failed s end;
+          failed := match r with TErr => true | _ => failed s end; rfailed := rfailed s;
           dirty := match r with TOk => false | _ => dirty s end;
           last_flush_pending := match r with TPending => true | _ => false end;
           streak := S (streak s) |})
     | CClose r =>
       (true,
        {| licensed := licensed s; closed := true;
-          failed := match r with TErr => true | _ => failed s end; dirty := dirty s;
+          failed := match r with TErr => true | _ => failed s end; rfailed := rfailed s;
+          dirty := dirty s;
           last_flush_pending := last_flush_pending s; streak := streak s |})
-    | CNext _ =>
+    | CNext r =>
       (true,
-       {| licensed := licensed s; closed := closed s; failed := failed s; dirty := dirty s;
+       {| licensed := licensed s; closed := closed s; failed := failed s;
+          rfailed := match r with RErr => true | _ => rfailed s end; dirty := dirty s;
           last_flush_pending := last_flush_pending s; streak := 0 |})
     end.
 
@@ -254,12 +257,14 @@ Section Contract.
 
   (* one poll: a fresh streak / flush-pending marker, the calls, then the idle condition:
      returning Pending with written-but-unflushed items is allowed only if the flush is pending
-     (the transport then holds the waker) *)
+     (the transport then holds the waker), or the transport has already reported a failure
+     on either half (the connection is being torn down) *)
   Definition c_poll (s : cst) (p : list call * bool) : bool * cst :=
-    let s0 := {| licensed := licensed s; closed := closed s; failed := failed s; dirty := dirty s;
+    let s0 := {| licensed := licensed s; closed := closed s; failed := failed s;
+                 rfailed := rfailed s; dirty := dirty s;
                  last_flush_pending := false; streak := 0 |} in
     let '(ok, s1) := c_calls s0 (fst p) in
-    (ok && (negb (snd p) || negb (dirty s1) || last_flush_pending s1), s1).
+    (ok && (negb (snd p) || negb (dirty s1) || last_flush_pending s1 || failed s1 || rfailed s1), s1).
 
   Fixpoint c_polls (s : cst) (ps : list (list call * bool)) : bool :=
     match ps with
